@@ -124,6 +124,15 @@ package rules
 // handed as a closure to a helper (updateTopicsAndStore(func(){..})) is decided through the helper. New R-C14-3
 // obligation "client removed only from the node of the whole filter" (names the slip of seeded C14/g).
 //
+// Robustness pass, fourth iteration (driver out/mut9.py): a named local for qoss[i]; Session wrappers of
+// allSubscribes (subscribedTopics) as the source of the own filters; accessors in front of the client registry;
+// own reading of the supersession mark (a bool field of Client only ever set on a connection obtained from the
+// registry) when C16's role code does not find it; callback iterators over <node>.clients / <node>.nodes
+// (forEachClient / forEachChild): collectors and collect sites written with a collecting closure, the edge loop of
+// the matcher behind forEachChild(visit) with the per-edge decision in the closure, lock held at the use sites of a
+// non-escaping closure. Not followed (exit 2, anchors): C14/r16 (clients as a named map type with put/drop/copyTo
+// methods, a topicSub parameter object, Session.updateTopics(func(map))).
+//
 // GENUINE DEFECTS found on the tree of the first pass (since fixed in /repo: 8fc741a, 90acb3c; demo out/zz_triage_test.go):
 //   R-C14-6 |(TopicManager).subscribe|all-or-nothing            — out/fix-1.diff
 //   R-C14-6 |(TopicManager).unsubscribe|every filter processed  — out/fix-2.diff
@@ -157,8 +166,9 @@ type c14env struct {
 
 	insertPrevalidated bool // every insert call site is preceded by a validation loop over the batch
 
-	roles    *c14roleSet
-	wrappers map[*types.Func]c14wrapper
+	roles     *c14roleSet
+	wrappers  map[*types.Func]c14wrapper
+	iterators map[*types.Func]c14iterator // callback iterators over <node>.clients / <node>.nodes
 }
 
 func c14(c *core.Ctx) string {
@@ -185,7 +195,18 @@ func c14(c *core.Ctx) string {
 	if e == nil {
 		return ""
 	}
-	c.RequireCount("R-C14-5", "collector methods (range recv.clients -> map parameter)", len(e.collectors), 1)
+	nClientIters := 0
+	for _, it := range e.iterators {
+		if it.field == e.clientsF {
+			nClientIters++
+		}
+	}
+	c.RequireCount("R-C14-5", "collector methods (range recv.clients -> map parameter) and client iterators", len(e.collectors)+nClientIters, 1)
+	for fo, it := range e.iterators {
+		if hd := declOf(e.pkg, fo); hd != nil && it.field == e.clientsF {
+			c.Discharge("R-C14-5", declName(e.pkg, hd)+"|iterator hands on the subscription's own (client, qos)", pos(c, hd.Body), "the body is `for k, v := range <node>.clients { fn(k, v) }`")
+		}
+	}
 
 	c14Find(e)
 	c14Batch(e) // before the gate: tells whether insert's error path is reachable
@@ -368,6 +389,46 @@ func (e *c14env) findCollectors() {
 	e.collectors = map[*types.Func]*ast.FuncDecl{}
 	e.collectorNode = map[*types.Func]int{}
 	e.collectorDst = map[*types.Func]int{}
+	e.findIterators()
+	// a collector written with a callback iterator: node.forEachClient(func(k, v) { ans[k] = v })
+	e.decls(func(f *flow.Func, fd *ast.FuncDecl) {
+		o := e.funcObj(fd)
+		if o == nil {
+			return
+		}
+		if _, isIt := e.iterators[o]; isIt {
+			return
+		}
+		recv := c14recvObj(f, fd)
+		params := c14params(f)
+		for _, call := range calls(fd.Body, false) {
+			node, lit, ok := e.iterCall(f, call, e.clientsF)
+			if !ok {
+				continue
+			}
+			dst, ok := c14collectLit(f, lit)
+			if !ok {
+				continue
+			}
+			ni, di := -2, -2
+			if no := c14obj(f, node); no != nil && no == recv {
+				ni = -1
+			}
+			for i, p := range params {
+				if p == c14obj(f, node) {
+					ni = i
+				}
+				if p == c14obj(f, dst) {
+					di = i
+				}
+			}
+			if ni != -2 && di >= 0 {
+				e.collectors[o] = fd
+				e.collectorNode[o] = ni
+				e.collectorDst[o] = di
+			}
+		}
+	})
 	e.decls(func(f *flow.Func, fd *ast.FuncDecl) {
 		// the node: the receiver or a parameter of the trie node type; the destination: a map parameter
 		recv := c14recvObj(f, fd)
@@ -443,6 +504,7 @@ type c14collect struct {
 	call *ast.CallExpr // nil for inline loops
 	recv ast.Expr      // the node whose clients are copied
 	dst  types.Object  // the destination map variable
+	lit  *ast.FuncLit  // the collecting closure of an iterator call
 }
 
 // collects lists the collect sites below root: calls to a collector method and inline
@@ -465,6 +527,18 @@ func (e *c14env) collects(f *flow.Func, root ast.Node) []c14collect {
 			continue
 		}
 		out = append(out, c14collect{at: call, call: call, recv: node, dst: c14place(f, call.Args[di])})
+	}
+	for _, call := range calls(root, false) {
+		if fo := c14calleeOf(f, call); fo != nil && e.collectors[fo] != nil {
+			continue
+		}
+		node, lit, ok := e.iterCall(f, call, e.clientsF)
+		if !ok {
+			continue
+		}
+		if dst, ok := c14collectLit(f, lit); ok {
+			out = append(out, c14collect{at: call, call: call, recv: node, dst: c14place(f, dst), lit: lit})
+		}
 	}
 	for _, rs := range c14ranges(root) {
 		x, ok := c14fieldOrAlias(f, rs.X, e.clientsF)
@@ -854,6 +928,88 @@ func c14Mutators(e *c14env) {
 		accs = append(accs, a)
 	})
 
+	// closureUses: call lies in a function literal of fd that is either an argument of a call to a
+	// same-package function or held in a single-assignment local that is only called / handed to
+	// same-package functions; returns those use sites (calls).
+	closureUses := func(g *flow.Func, fd *ast.FuncDecl, call *ast.CallExpr) ([]*ast.CallExpr, bool) {
+		var lit *ast.FuncLit
+		ast.Inspect(fd.Body, func(n ast.Node) bool {
+			if l, ok := n.(*ast.FuncLit); ok && contains(l.Body, call) && lit == nil {
+				lit = l // outermost literal around the call
+			}
+			return true
+		})
+		if lit == nil {
+			return nil, false
+		}
+		samePkgCall := func(c2 *ast.CallExpr) bool {
+			fo := c14calleeOf(g, c2)
+			return fo != nil && fo.Pkg() == e.pkg.Types && declOf(e.pkg, fo) != nil
+		}
+		pm := parentMap(fd.Body)
+		var uses []*ast.CallExpr
+		switch p := pm[lit].(type) {
+		case *ast.CallExpr:
+			if ast.Unparen(p.Fun) == ast.Expr(lit) || !samePkgCall(p) {
+				return nil, false
+			}
+			if _, isGo := pm[p].(*ast.GoStmt); isGo {
+				return nil, false
+			}
+			if _, isDefer := pm[p].(*ast.DeferStmt); isDefer {
+				return nil, false
+			}
+			return []*ast.CallExpr{p}, true
+		case *ast.AssignStmt:
+			var v types.Object
+			for i, r := range p.Rhs {
+				if ast.Unparen(r) == ast.Expr(lit) && len(p.Lhs) == len(p.Rhs) {
+					v = c14obj(g, p.Lhs[i])
+				}
+			}
+			if v == nil {
+				return nil, false
+			}
+			ok := true
+			ast.Inspect(fd.Body, func(n ast.Node) bool {
+				id, isID := n.(*ast.Ident)
+				if !isID || g.Info.Uses[id] != v {
+					return true
+				}
+				c2, isCall := pm[id].(*ast.CallExpr)
+				if !isCall {
+					ok = false
+					return true
+				}
+				if _, isGo := pm[c2].(*ast.GoStmt); isGo {
+					ok = false
+				}
+				if _, isDefer := pm[c2].(*ast.DeferStmt); isDefer {
+					ok = false
+				}
+				if ast.Unparen(c2.Fun) != ast.Expr(id) && !samePkgCall(c2) {
+					ok = false
+				}
+				uses = append(uses, c2)
+				return true
+			})
+			// assigned exactly once
+			defs := 0
+			ast.Inspect(fd.Body, func(n ast.Node) bool {
+				if as, isAs := n.(*ast.AssignStmt); isAs {
+					for _, l := range as.Lhs {
+						if c14obj(g, l) == v {
+							defs++
+						}
+					}
+				}
+				return true
+			})
+			return uses, ok && defs == 1
+		}
+		return nil, false
+	}
+
 	// litFlowOf: the flow of the closure around call when that closure is handed to a lock wrapper
 	litResults := map[*ast.FuncLit]*flow.Result{}
 	litFlowOf := func(in *ast.FuncDecl, call *ast.CallExpr) (*flow.Result, c14wrapper, bool) {
@@ -908,6 +1064,24 @@ func c14Mutators(e *c14env) {
 				for _, st := range r.At[s.call] {
 					if !c14held(st, write) {
 						okHere, bad = false, st
+					}
+				}
+			}
+			if !okHere && r != nil {
+				// the call sits in a closure of s.in that does not escape (it is only called, or handed to a
+				// same-package function as an argument): it runs where it is used — the lock must be held at
+				// every use site
+				if uses, ok := closureUses(flows[s.in], s.in, s.call); ok && len(uses) > 0 {
+					okHere = true
+					for _, u := range uses {
+						if len(r.At[u]) == 0 {
+							okHere = false
+						}
+						for _, st := range r.At[u] {
+							if !c14held(st, write) {
+								okHere, bad = false, st
+							}
+						}
 					}
 				}
 			}
@@ -1180,6 +1354,16 @@ func c14QoS(e *c14env) {
 						okStore = f.Render(lx.X) == f.Render(rs.X) && c14obj(f, lx.Index) == k
 					}
 				}
+				if !okStore {
+					// ans[p0] = p1 inside the closure handed to a clients iterator on the node
+					for _, call := range calls(fd.Body, false) {
+						if node, lit, isIt := e.iterCall(f, call, e.clientsF); isIt && contains(lit.Body, as) && c14obj(f, node) == recv {
+							if _, isCol := c14collectLit(f, lit); isCol {
+								okStore = true
+							}
+						}
+					}
+				}
 				if okStore {
 					good++
 				} else {
@@ -1255,6 +1439,13 @@ func c14QoS(e *c14env) {
 								if r, ok := p.(*ast.RangeStmt); ok && inlineX[r.X] && r.Key != nil && r.Value != nil && len(t.Lhs) == len(t.Rhs) {
 									okStore = c14obj(g, ix.Index) == c14obj(g, r.Key) && c14obj(g, t.Rhs[i]) == c14obj(g, r.Value)
 									break
+								}
+							}
+							if !okStore {
+								for _, cl := range cols {
+									if cl.lit != nil && contains(cl.lit.Body, t) {
+										okStore = true // the collecting closure of an iterator call
+									}
 								}
 							}
 							if !okStore {
@@ -1389,7 +1580,29 @@ func c14QoS(e *c14env) {
 							})
 						}
 					}
-					if ix, isIx := a.(*ast.IndexExpr); isIx {
+					qa := a
+					// a named local for the element: qos := qoss[i] (assigned once, in this iteration)
+					if v := c14obj(f, a); v != nil && !c14isParam(f, v) {
+						defs := 0
+						var rhs ast.Expr
+						ast.Inspect(f.Body, func(n ast.Node) bool {
+							if as, isAs := n.(*ast.AssignStmt); isAs && len(as.Lhs) == len(as.Rhs) {
+								for i, l := range as.Lhs {
+									if c14obj(f, l) == v {
+										defs++
+										if contains(it.body, as) {
+											rhs = as.Rhs[i]
+										}
+									}
+								}
+							}
+							return true
+						})
+						if defs == 1 && rhs != nil {
+							qa = ast.Unparen(rhs)
+						}
+					}
+					if ix, isIx := qa.(*ast.IndexExpr); isIx {
 						qp := c14obj(f, ix.X)
 						if qp != nil && qp != topicsP && c14isParam(f, qp) && c14isSliceOf(qp.Type(), c14isByte) && it.key != nil && c14obj(f, ix.Index) == it.key {
 							qosOK = true
